@@ -408,3 +408,14 @@ Definition dkl_gaussian_Qc (LOGR : Qc) (dim : nat) m1 S1 m2 P2 : Qc :=
 (* S1 is the inverse of P1: P1 . S1 = I, checked by the harness on the oracle value *)
 Definition is_inverse_Qc (n : nat) (P S : list (list Qc)) : bool :=
   list_eqb (list_eqb Qc_eq_bool) (mm qc0 Qcplus Qcmult n P S) (mid qc0 (Q2Qc 1) n).
+
+(* D.3 bgmm.dkl_wishart: the code's arithmetic is GmmFrags.src_dkl_wishart (translated from the
+   source).  Textbook KL( W(a1, V1) || W(a2, V2) ) with V_i = inv(B_i), p = dim:
+     -(a2/2) ln|inv(V2) V1| + (a1/2) (tr(inv(V2) V1) - p) + ln Gamma_p(a2/2) - ln Gamma_p(a1/2)
+     + ((a1 - a2)/2) psi_p(a1/2)
+   where ln|inv(V2) V1| = ln|B2| - ln|B1| = LD2 - LD1, tr(inv(V2) V1) = tr(B2 inv(B1)) = TR,
+   ln Gamma_p(a_i/2) = lgc + G_i (lgc = p(p-1)/4 ln pi, G_i = sum_i gammaln((a_i - i)/2)),
+   psi_p(a1/2) = PS1 = sum_i psi((a1 - i)/2). *)
+Definition dkl_wishart_textbook (a1 a2 dim LD1 LD2 lgc G1 G2 PS1 TR : Q) : Q :=
+  - ((1 # 2) * a2 * (LD2 - LD1)) + (1 # 2) * a1 * (TR - dim) + ((lgc + G2) - (lgc + G1))
+  + (1 # 2) * (a1 - a2) * PS1.
